@@ -207,6 +207,22 @@ class Report:
         return code
 
 
+def borrow(rep, other_pid, rid, text, select):
+    """clauses another property's rules decide about code this property also depends on: that module is run on a scratch
+    report and the entries chosen by select(entry) are taken over under rule `rid`"""
+    import importlib
+    sub = Report(other_pid, rep.tier, rep.repo, rep.seed)
+    mod = importlib.import_module(f"hyverif.rules.{other_pid.lower()}")
+    mod.run(sub)
+    rep.rule(rid, text)
+    n = 0
+    for e in sub.entries:
+        if select(e):
+            n += 1
+            rep.add(e.verdict, rid, e.file, e.func, f"[{e.rule}] {e.construct}", e.detail, e.line)
+    return n
+
+
 def load_undecided_ok():
     p = os.path.join(VERIF, "undecided_ok.json")
     if not os.path.exists(p):
